@@ -15,7 +15,7 @@ RULE = ("request specs: 9 methods x unicode paths over an alphabet with reserved
         "query dicts and form dicts whose keys/values contain & = + % # ? ; space and non-ASCII x header sets (token names in "
         "mixed case, latin-1 values with ': ', blanks, empty) x raw / JSON / form bodies, with and without explicit "
         "Content-Length; built by the real Requester, parsed by the real Requestant + Server.buildEnviron; a second stream "
-        "40% of the histories go through the application API instead of the Requester: a real Client on a fake connected socket, requests queued with Client.request(**subset) where each of method / path / qargs / headers / body|data|fargs is independently given or omitted (incl. empty dict / list / body meant to clear) and sent by Client.service(); all requests of a history are also fed to ONE Requestant and to a real WSGI Server connection (whole, one request per receive, or - half of the cases - cut into 2-4 receives at arbitrary byte positions incl. right after a header line, between CR and LF and inside header names/values, with a parse()/service() between receives; in a quarter of the cases after a hand-written chunked / Content-Length / cookie-bearing first request) and every parse is compared with the parse of the same request alone; each request is followed by 0-3 rebuild() calls on the same Requester (no arguments, or only some of method / path / qargs / headers / body, the rest carried over), every build parsed and compared; a further stream leaves the well-formed domain (path with ? or #, // prefix, control characters, CR/LF in header values) where only "
+        "40% of the histories go through the application entry points instead of the Requester: a real Client on a fake connected socket, first request by Client(..., body|data|fargs) + bare transmit() or by Client.request, later ones by a bare transmit() (resend), client.transmit(**subset) or Client.request(**subset); a few through clienting.backendRequest on a fake connection; where each of method / path / qargs / headers / body|data|fargs is independently given or omitted (incl. empty dict / list / body meant to clear) and sent by Client.service(); all requests of a history are also fed to ONE Requestant and to a real WSGI Server connection (whole, one request per receive, or - half of the cases - cut into 2-4 receives at arbitrary byte positions incl. right after a header line, between CR and LF and inside header names/values, with a parse()/service() between receives; in a quarter of the cases after a hand-written chunked / Content-Length / cookie-bearing first request) and every parse is compared with the parse of the same request alone; each request is followed by 0-3 rebuild() calls on the same Requester (no arguments, or only some of method / path / qargs / headers / body, the rest carried over), every build parsed and compared; a further stream leaves the well-formed domain (path with ? or #, // prefix, control characters, CR/LF in header values) where only "
         "model/implementation agreement is compared. Non-trivial: a reserved or non-ASCII character in path, key, value or header value")
 MODELLED = ["urllib.parse.quote/quote_plus/unquote/unquote_plus/urlsplit/parse_qsl and UTF-8 coding (Gallina functions; swept against CPython in C16's and this driver's extra())",
             "json.dumps of the data argument (external: the encoded bytes are part of the request spec)",
@@ -101,9 +101,11 @@ def _rebuild_args(op):
 
 
 def _client_wires(case):
-    """The same history through the application-level API: a Client (fake connected socket) whose requests are
-    queued with Client.request(**only the given arguments) and sent by Client.service(); after every request a
-    minimal response is fed so that the next one goes out.  -> list of wire bytes or exception text per build"""
+    """The same history through the public entry points of the application: a Client (fake connected socket);
+    first request either Client(..., body/data/fargs) + bare client.transmit() or Client.request(body...);
+    later ones Client.request(**subset), client.transmit(**subset) or a bare client.transmit(); all sent by
+    Client.service(); after every request a minimal response is fed so that the next one goes out.
+    -> list of wire bytes or exception text per build"""
     from hio.core.http import clienting
     from hio.base import tyming
     from hio import help
@@ -111,10 +113,12 @@ def _client_wires(case):
     b = case["body"]
     tymist = tyming.Tymist()
     nops = 1 + len(case.get("ops", []))
+    first_bare = case.get("first", "request") == "transmit"
+    ckw = _rebuild_args({"body": b}) if first_bare else {}
     try:
         cl = clienting.Client(hostname=HOST, port=PORT, method=case["method"], path=case["path"],
                               qargs=dict((k, v) for k, v in case["qargs"]),
-                              headers=help.Hict([(k, v) for k, v in case["headers"]]), tymth=tymist.tymen())
+                              headers=help.Hict([(k, v) for k, v in case["headers"]]), tymth=tymist.tymen(), **ckw)
     except Exception as ex:     # a path naming another host / scheme is rejected (or resolved) by the constructor
         return ["constructor: " + type(ex).__name__ + ": " + str(ex)[:80]] * nops
     if cl.connector.ha != (HOST, PORT):
@@ -123,14 +127,19 @@ def _client_wires(case):
     cl.connector.cs = sock
     cl.connector.accepted = True
     out = []
-    ops = [{"body": b}] + list(case.get("ops", []))
+    ops = [{"bare": True} if first_bare else {"body": b}] + list(case.get("ops", []))
     for i, op in enumerate(ops):
         kw = _rebuild_args(op)
-        if i == 0 and b[0] == "raw" and not b[1]:
+        if i == 0 and not first_bare and b[0] == "raw" and not b[1]:
             kw = {}
         before = len(sock.sent)
         try:
-            cl.request(**kw)
+            if op.get("bare"):
+                cl.transmit()
+            elif op.get("api") == "transmit" and kw:
+                cl.transmit(**kw)
+            else:
+                cl.request(**kw)
             cl.service()
         except Exception as ex:
             out += [type(ex).__name__ + ": " + str(ex)[:100]] * (len(ops) - i)
@@ -146,6 +155,43 @@ def _client_wires(case):
     return out
 
 
+def _backend_wires(case):
+    """clienting.backendRequest driven on a fake connection: its Client is built by the function itself, so the
+    tcp connector class it instantiates is given a fake connected socket."""
+    from hio.core.http import clienting
+    from hio.core import tcp
+    from hio.base import tyming
+    from harness.drivers.c16 import FakeSock
+    tymist = tyming.Tymist()
+    socks = []
+    orig = tcp.Client.__init__
+
+    def init(self, *pa, **kwa):
+        orig(self, *pa, **kwa)
+        sk = FakeSock((HOST, PORT), 50001)
+        socks.append(sk)
+        self.cs = sk
+        self.accepted = True
+    tcp.Client.__init__ = init
+    try:
+        b = case["body"]
+        gen = clienting.backendRequest(tymist.tymen(), method=case["method"], host=HOST, port=PORT, path=case["path"],
+                                       qargs=dict((k, v) for k, v in case["qargs"]), data=(b[1] if b[0] == "json" else None))
+        try:
+            next(gen)
+            wire = bytes(socks[0].sent) if socks else b""
+            socks[0].inq.append(b"HTTP/1.1 200 OK\r\nContent-Length: 0\r\n\r\n")
+            for _ in range(4):
+                next(gen)
+        except StopIteration:
+            pass
+        except Exception as ex:
+            return [type(ex).__name__ + ": " + str(ex)[:100]]
+        return [wire]
+    finally:
+        tcp.Client.__init__ = orig
+
+
 def specs(case):
     """The request every build of the history is asked to send (independent mirror of the Requester's
     documented differential semantics: method/path/qargs/headers carry over, body/data/fargs do not;
@@ -154,6 +200,11 @@ def specs(case):
     out = [dict(cur)]
     for op in case.get("ops", []):
         cur = dict(cur, headers=_final_headers(cur))
+        if op.get("bare"):          # transmit() with no argument: the held request again
+            if "headers" in op:
+                cur["headers"] = op["headers"]
+            out.append(dict(cur))
+            continue
         for f in ("method", "path", "qargs", "headers"):
             if f in op:
                 cur[f] = op[f]
@@ -270,7 +321,8 @@ def run_impl(case):
     sp = specs(case)
     with Recorder() as rec:
         rq = None
-        cwires = _client_wires(case) if case.get("via") == "client" else None
+        cwires = (_client_wires(case) if case.get("via") == "client" else
+                  _backend_wires(case) if case.get("via") == "backend" else None)
         for i, spec in enumerate(sp):
             if cwires is not None:
                 w = cwires[i] if i < len(cwires) else "not sent"
@@ -496,9 +548,9 @@ def _op_term(op):
     data = f"(Some {coq_bytes(_json_bytes(b[1]))})" if b and b[0] == "json" else "(@None bytes)"
     fargs = f"(Some {_pairs(b[1])})" if b and b[0] == "form" else f"(@None ({PT}))"
     return ("{| HttpReq.a_method := %s; HttpReq.a_path := %s; HttpReq.a_qargs := %s; HttpReq.a_headers := %s; "
-            "HttpReq.a_body := %s; HttpReq.a_data := %s; HttpReq.a_fargs := %s |}"
+            "HttpReq.a_body := %s; HttpReq.a_data := %s; HttpReq.a_fargs := %s; HttpReq.a_bare := %s |}"
             % (o("method", _s, "HttpReqUrl.ustr"), o("path", _s, "HttpReqUrl.ustr"), o("qargs", _pairs, PT),
-               o("headers", _pairs, PT), body, data, fargs))
+               o("headers", _pairs, PT), body, data, fargs, coq_bool(bool(op.get("bare")))))
 
 
 def _step_term(so):
@@ -665,10 +717,28 @@ def generate(rng, tier):
             # an explicit Content-Length would be carried over to bodies of another length
             c["headers"] = [h for h in c["headers"] if h[0].lower() != "content-length"]
             c["ops"] = [_op(rng) for _ in range(nops)]
-        if rng.random() < 0.4:      # the application-level differential API: Client.request(**subset)
+        if rng.random() < 0.4:      # the application-level entry points
             c["via"] = "client"
             c["headers"] = [h for h in c["headers"] if h[0].lower() != "content-length"]
-            c["ops"] = [_op(rng, independent=True) for _ in range(rng.choice([1, 2, 3, 4]))]
+            c["first"] = rng.choice(["request", "transmit"])          # Client(..., body) + bare transmit()
+            ops = []
+            for _ in range(rng.choice([1, 2, 3, 4])):
+                k = rng.random()
+                if k < 0.25:
+                    ops.append({"bare": True})                           # bare transmit(): resend what is held
+                else:
+                    op = _op(rng, independent=True)
+                    if k < 0.5 and op:
+                        op["api"] = "transmit"                           # client.transmit(**subset)
+                    ops.append(op)
+            c["ops"] = ops
+        elif rng.random() < 0.08:   # clienting.backendRequest(...)
+            c["via"] = "backend"
+            c["ops"] = []
+            c["headers"] = [["Accept", "application/json"], ["Connection", "close"]]
+            if c["body"][0] != "json":
+                c["body"] = ["raw", ""]
+            c.pop("first_raw", None)
         c["pipelined"] = rng.random() < 0.5
         if rng.random() < 0.5:      # the stream arrives in 2-4 fragments at arbitrary byte positions
             c["cuts"] = [[rng.choice(["frac", "hdr", "hdr", "crlf", "mid", "pre"]), rng.randrange(10000)]
@@ -715,6 +785,12 @@ def directed():
         R(method="POST", path="/c", qargs=[["a", "b"]], headers=[["X-A", "1"]], body=["json", {"k": 1}], via="client",
           ops=[{"method": "PUT"}, {"headers": []}, {"body": ["form", [["f", "g h"]]]}, {"qargs": [["x y", "&"]], "headers": [["X-B", "2"]]}]),
         R(path="/c", via="client", ops=[{"method": "DELETE", "path": "/é", "qargs": [["k", "v"]], "headers": [["Accept", "*/*"]], "body": ["raw", b"zz".hex()]}, {}]),
+        # constructor request + bare transmit(), transmit(**subset), backendRequest
+        R(method="POST", path="/t", qargs=[["a", "b"]], body=["json", {"k": [1, 2]}], via="client", first="transmit", ops=[{"bare": True}, {"qargs": []}, {"bare": True}]),
+        R(method="PUT", path="/t", body=["form", [["f", "g h"]]], via="client", first="transmit", ops=[{"method": "POST", "body": ["raw", b"xyz".hex()], "api": "transmit"}, {"bare": True}]),
+        R(method="POST", path="/t", body=["raw", b"held body".hex()], headers=[["X-A", "1"]], via="client", first="transmit", ops=[{"bare": True}, {"path": "/u", "api": "transmit"}]),
+        R(method="POST", path="/backend", qargs=[["q", "a b"]], headers=[["Accept", "application/json"], ["Connection", "close"]], body=["json", {"x": "é"}], via="backend"),
+        R(method="GET", path="/backend", headers=[["Accept", "application/json"], ["Connection", "close"]], via="backend"),
         # the head arrives in several receives: after a header line, between CR and LF, inside a name / value
         R(method="POST", path="/frag", headers=[["X-One", "1"], ["X-Two", "22"]], body=["raw", b"payload".hex()], cuts=[["hdr", 1]]),
         R(method="POST", path="/frag", headers=[["X-One", "1"], ["X-Two", "22"]], body=["raw", b"payload".hex()], cuts=[["hdr", 2], ["hdr", 3]], ops=[{}]),
